@@ -9,6 +9,7 @@ PAGES = [1, 2, 3, 4, 5, 7, 8, 16, 64, 512, 4096]
 K_STABLE = "C05:stable-anchor:realloc-in-refill"
 K_MEMEND = "C05:setoffset:beyond-end-in-memory"
 K_AHEAD = "C05:anchor:ahead-of-cursor"
+K_READ0 = "C05:read:zero-bytes-null-mem"
 
 
 def hx(b):
@@ -139,6 +140,249 @@ def parse_out(l):
     return d
 
 
+# BEGIN round4-mem
+# ---- esl_mem.c string/number helpers (stateless ops; model lean/EaselModel/Buffer/Mem.lean, protocol MemDriver.lean) ----
+MEM_THEOREMS = ["EaselModel.Props.C05." + t for t in (
+    "strtoi32_spec", "strtoi64_spec", "strtoi_spec_any_width", "strtoi_eq_specRes", "memspn_spec", "memcspn_spec", "memtok_spec",
+    "memtok_split_meaning", "memtok_eol_iff", "memstrcmp_spec", "memstrpfx_spec", "memstr_case_spec", "memstrcontains_spec", "memstrdup_spec", "memIsReal_spec", "memIsReal_no_fault")]
+MEM_LEVEL_TEXT = ("esl_mem.c helpers (round 4): esl_mem_strtoi32/64/strtoi satisfy Mem.StrtoiSpec for every byte string and base (EINVAL/EFORMAT/ERANGE/OK each by an iff on an "
+                  "independent parse, nc and val in every case, no fault: no out-of-bounds read, no signed overflow); esl_memspn/memcspn = longest prefix in/not in the C-string set; "
+                  "esl_memtok = takeWhile/dropWhile cut (EOL iff only delimiters; pieces concatenate to the input; *p/*n as left by the code); esl_memstrcmp/strpfx/strcontains (+_case) = "
+                  "equality/prefix/infix with the C string incl. the NULL conventions; esl_memstrdup/strcpy = bytes + NUL; esl_mem_IsReal = Mem.isRealSpec (what the code accepts: it passes over garbage bytes) and never faults. "
+                  "Model tied to the working tree by ~5000 exact stateless ops per run on exactly sized blocks (ASan+UBSan), python oracle of the specification as monitor.")
+MEM_ASSUMPTIONS = ["esl_mem.c: `int` is 32 bits (esl_mem_strtoi is checked against the int32 model); line lengths < 2^31 (nc is an int); <ctype.h> in the C locale (glibc tables, bytes >= 0x80 in no class); "
+                   "esl_mem_strtof/esl_memtod/esl_memtof (floating point) are not modelled; esl_mem_IsReal is specified as what the code accepts (Mem.isRealSpec), which is weaker than its header: garbage bytes such as \"1x\", \"abc1\" pass (reported as a candidate defect)"]
+MEM_TRUSTED = ["hand model EaselModel/Buffer/Mem.lean of the esl_mem.c helpers, tied by exact differential run of stateless ops (h_buffer.c: mem_op, exactly sized malloc blocks, ASan+UBSan)",
+               "python re-statement of the strtoi/memspn/memtok/memstr* specifications used by the monitor (props/c05.py: mem_spec)"]
+MEM_WS = b" \t\n\v\f\r"
+MEM_BASES = [0] + list(range(2, 37))
+MEM_BADBASES = [-1, 1, 37, -16, 100]
+MEM_DIG = "0123456789abcdefghijklmnopqrstuvwxyz"
+
+
+def mem_cstr(b):
+    i = b.find(b"\x00")
+    return b if i < 0 else b[:i]
+
+
+def mem_spec_strtoi(p, base, bits):
+    """independent re-statement of the specification of esl_mem_strtoi{32,64,}: the answer line"""
+    if base < 0 or base == 1 or base > 36: return "einval nc=untouched val=untouched"
+    lo, hi = -(1 << (bits - 1)), (1 << (bits - 1)) - 1
+    i = 0
+    while i < len(p) and p[i] in MEM_WS: i += 1
+    neg = p[i:i + 1] == b"-"
+    if neg: i += 1
+    nd = 0
+    if base in (0, 16) and p[i:i + 2] == b"0x": i, base = i + 2, 16
+    elif base == 0 and p[i:i + 1] == b"0": i, base, nd = i + 1, 8, 1
+    elif base == 0: base = 10
+    v = 0
+    while i < len(p):
+        c = p[i]
+        d = c - 48 if 48 <= c <= 57 else c - 55 if 65 <= c <= 90 else c - 87 if 97 <= c <= 122 else 99
+        if d >= base: break
+        v, i, nd = v * base + d, i + 1, nd + 1
+        if (-v if neg else v) < lo: return "erange nc=%d val=%d" % (i, lo)
+        if (-v if neg else v) > hi: return "erange nc=%d val=%d" % (i, hi)
+    if nd == 0: return "eformat nc=0 val=0"
+    return "ok nc=%d val=%d" % (i, -v if neg else v)
+
+
+def mem_spec(op):
+    """expected answer line of a mem op by the python oracle (None: no oracle for it)"""
+    w = op.split()
+    kv = dict(x.split("=", 1) for x in w[1:] if "=" in x)
+    def hb(k):
+        v = kv.get(k)
+        return None if v == "null" else b"" if v == "-" else bytes.fromhex(v)
+    name = w[0]
+    p = hb("hex")
+    if name in ("strtoi32", "strtoi"): return mem_spec_strtoi(p, int(kv["base"]), 32)
+    if name == "strtoi64": return mem_spec_strtoi(p, int(kv["base"]), 64)
+    if name in ("memspn", "memcspn"):
+        st = mem_cstr(hb("set")); k = 0
+        while k < len(p) and ((p[k] == 0 or p[k] in st) == (name == "memspn")): k += 1
+        return "n=%d" % k
+    if name == "memtok":
+        d = mem_cstr(hb("delim")); isd = lambda c: c == 0 or c in d
+        so = 0
+        while so < len(p) and isd(p[so]): so += 1
+        xo = so
+        while xo < len(p) and not isd(p[xo]): xo += 1
+        eo = xo
+        while eo < len(p) and isd(p[eo]): eo += 1
+        if so == len(p): return "eol tok=null at=0 off=0 n=%d" % len(p)
+        return "ok tok=%s at=%d off=%d n=%d" % (hx(p[so:xo]), so, eo, len(p) - eo)
+    if name == "memnewline":
+        i = p.find(b"\n")
+        if i < 0: return "ok nline=%d nterm=0" % len(p)
+        if i > 0 and p[i - 1] == 13: return "ok nline=%d nterm=2" % (i - 1)
+        return "ok nline=%d nterm=1" % i
+    if name in ("memstrcmp", "memstrpfx", "memstrcontains", "memstrcmp_case", "memstrpfx_case"):
+        s = hb("s")
+        up = lambda b: bytes((c - 32 if 97 <= c <= 122 else c) for c in b)
+        if name.startswith("memstrcmp") and p is None: return "r=%d" % (s is None or mem_cstr(s) == b"")
+        if p is None or s is None: return "r=0"
+        s = mem_cstr(s)
+        if name.endswith("_case"): p, s = up(p), up(s)
+        if name.startswith("memstrcmp"): return "r=%d" % (p == s)
+        if name.startswith("memstrpfx"): return "r=%d" % p.startswith(s)
+        return "r=%d" % (len(p) > 0 and s in p)       # the code answers FALSE on an empty line, even for the empty string
+    if name == "memisreal":
+        # what the code accepts (Mem.isRealSpec), stated without a scan: blanks, optional sign, a blank-free body with a digit,
+        # at most one '.', at most one e/E, no '.' after the e/E (any other byte of the body is passed over), blanks
+        if not p: return "r=0"
+        r = p.lstrip(MEM_WS)
+        if r[:1] in (b"-", b"+"): r = r[1:]
+        j = 0
+        while j < len(r) and r[j] not in MEM_WS: j += 1
+        body, tail = r[:j], r[j:]
+        es = [k for k, c in enumerate(body) if c in b"eE"]
+        ok = (tail.strip(MEM_WS) == b"" and any(48 <= c <= 57 for c in body) and body.count(b".") <= 1 and len(es) <= 1
+              and not (es and b"." in body[es[0]:]))
+        return "r=%d" % ok
+    if name == "memstrdup": return "ok null" if p is None else "ok " + hx(p + b"\x00")
+    if name == "memstrcpy": return "ok " + hx(p + b"\x00")
+    return None
+
+
+def mem_num(rng, bits=None):
+    """one boundary-rich numeric text (bytes) and a base"""
+    base = rng.choice(MEM_BASES) if rng.random() < 0.93 else rng.choice(MEM_BADBASES)
+    b = base if 2 <= base <= 36 else rng.choice([8, 10, 16])
+    bits = bits or rng.choice([32, 32, 64])
+    hi = (1 << (bits - 1)) - 1
+    r = rng.random()
+    if r < 0.45:
+        v = rng.choice([hi, hi + 1, hi + 2, hi - 1, hi // b, hi // b + 1, (hi + 1) // b, hi * b, (hi + 1) * b - 1, (hi // b) * b, (hi // b) * b + b - 1,
+                        hi - rng.randrange(0, 40), hi + rng.randrange(0, 40), (1 << 31) - 1, 1 << 31, (1 << 31) + 1, (1 << 63) - 1, 1 << 63, (1 << 63) + 1, (1 << 32), (1 << 64)])
+    elif r < 0.6: v = rng.choice([0, 0, 1, 7, 8, 9, 10, 15, 16, 35, 36, rng.randrange(0, 1000)])
+    elif r < 0.8: v = rng.randrange(0, 1 << rng.randrange(1, 70))
+    else: v = rng.randrange(0, 1 << rng.randrange(60, 200))
+    ds = ""
+    while True:
+        ds = MEM_DIG[v % b] + ds; v //= b
+        if v == 0: break
+    ds = "".join(c.upper() if rng.random() < 0.3 else c for c in ds)
+    if rng.random() < 0.15: ds = "0" * rng.randrange(1, 40) + ds
+    if rng.random() < 0.06: ds = ""
+    ws = bytes(rng.choice(MEM_WS) for _ in range(rng.choice([0, 0, 0, 1, 1, 2, 6])))
+    sign = rng.choice([b"", b"", b"-", b"-", b"-", b"+", b"--", b"- "]) if rng.random() < 0.9 else b""
+    pfx = rng.choice([b"", b"", b"", b"0x", b"0x", b"0X", b"0", b"00", b"0x0x", b"x"]) if (base in (0, 16) or rng.random() < 0.15) else b""
+    tail = rng.choice([b"", b"", b"", b" ", b"\n", b"z", b"Z", b"g", b"G", b"8", b"9", b"a", b".5", b"\x00", b"\x001", b"\xff", b"\x80\xb1", b"_", b"@", b"[", b"`", b"{", b"/", b":", b"-1", b" 12"])
+    s = ws + sign + pfx + ds.encode() + tail
+    if rng.random() < 0.04: s = rng.choice([b"", b"-", b"0x", b"0X", b"-0x", b"0", b"-0", b" ", b"0xg", b"0x-1", b"-0x1f", b"\xb1", b"\x00", b"+1", b" \t\n\v\f\r7", b"08", b"0x8", b"0b1", b"\x1c1", b"\xa01"])
+    return s, base
+
+
+def mem_rand_bytes(rng, alpha, n):
+    return bytes(rng.choice(alpha) for _ in range(n))
+
+
+def mem_gen_op(rng):
+    r = rng.random()
+    if r < 0.5:
+        s, base = mem_num(rng)
+        return "%s hex=%s base=%d" % (rng.choice(["strtoi32", "strtoi32", "strtoi64", "strtoi64", "strtoi"]), hx(s), base)
+    sets = [b"", b" ", b" \t", b" \t\r\n", b",;", b"a", b"ab", b"\xff", b"\x80 \xfe", b" \x00\t", b"\x00", b"ab\x00c", b"\n", b"abcdefgh"]
+    if r < 0.68:
+        st = rng.choice(sets) if rng.random() < 0.8 else mem_rand_bytes(rng, range(256), rng.randrange(0, 5))
+        alpha = list(st) * 3 + list(b"ab \t,x\x00\xff\x80\n") if rng.random() < 0.8 else list(range(256))
+        p = mem_rand_bytes(rng, alpha, rng.choice([0, 0, 1, 2, 3, 5, 8, 13, 40]))
+        name = rng.choice(["memspn", "memcspn", "memtok", "memtok"])
+        return "%s hex=%s %s=%s" % (name, hx(p), "delim" if name == "memtok" else "set", hx(st))
+    if r < 0.72:
+        p = mem_rand_bytes(rng, b"ab\r\n\n\r ", rng.choice([0, 1, 2, 3, 5, 9, 30]))
+        return "memnewline hex=" + hx(p)
+    if r < 0.93:
+        name = rng.choice(["memstrcmp", "memstrpfx", "memstrcontains", "memstrcontains", "memstrcmp_case", "memstrpfx_case"])
+        alpha = rng.choice([b"ab", b"abAB", b"aA\x00", b"ab\xe1\xc1", b"abc@`[{"])
+        s = mem_rand_bytes(rng, alpha, rng.choice([0, 1, 1, 2, 3, 4, 6]))
+        q = rng.random()
+        if q < 0.25: p = s
+        elif q < 0.4: p = s + mem_rand_bytes(rng, alpha, rng.randrange(0, 4))
+        elif q < 0.55: p = mem_rand_bytes(rng, alpha, rng.randrange(0, 5)) + s + mem_rand_bytes(rng, alpha, rng.randrange(0, 3))
+        elif q < 0.65: p = s[:-1] if s else s
+        elif q < 0.75: p = bytes((c ^ 32 if 65 <= (c & ~32) <= 90 and rng.random() < 0.5 else c) for c in s)
+        else: p = mem_rand_bytes(rng, alpha, rng.choice([0, 1, 2, 3, 5, 9]))
+        ph = "null" if rng.random() < 0.04 else hx(p)
+        sh = "null" if rng.random() < 0.04 else hx(s)
+        return "%s hex=%s s=%s" % (name, ph, sh)
+    if r < 0.96:
+        p = mem_rand_bytes(rng, b"ab\x00\xff ", rng.choice([0, 1, 2, 5, 17]))
+        return rng.choice(["memstrdup hex=" + hx(p), "memstrcpy hex=" + hx(p), "memstrdup hex=null"])
+    p = mem_rand_bytes(rng, rng.choice([b"0123456789.eE-+ \t", b"12.e- x\xff\x00", b"1.e \n", b"12e"]), rng.choice([0, 1, 2, 3, 5, 8]))
+    return "memisreal hex=" + ("null" if rng.random() < 0.05 else hx(p))
+
+
+def mem_case(name, ops):
+    return {"name": name, "ops": ops, "sticky": 0, "mem": True, "nomonitor": True}
+
+
+def mem_corpus():
+    out = []
+    fixed = [b"", b"-", b"0x", b"0X1", b"0", b"-0", b"00", b"08", b"0x8", b"0xg", b"-0x1f", b"0x1F", b" 0x", b"2147483647", b"2147483648", b"-2147483648", b"-2147483649",
+             b"9223372036854775807", b"9223372036854775808", b"-9223372036854775808", b"-9223372036854775809", b" \t\n\v\f\r42z", b"+1", b"7fffffff", b"80000000",
+             b"-80000000", b"-80000001", b"zz", b"ZZ", b"\xb1", b"1\x002", b"12 34", b"0x7fffffff", b"0x80000000", b"017777777777", b"020000000000", b"-020000000000", b"-020000000001"]
+    for fn in ("strtoi32", "strtoi64", "strtoi"):
+        for base in [0, 2, 8, 10, 16, 36, -1, 1, 37]:
+            out.append(mem_case("mem-%s-b%d" % (fn, base), ["%s hex=%s base=%d" % (fn, hx(t), base) for t in fixed]))
+    # every base: its largest in-range and smallest out-of-range magnitude, both signs, both widths
+    for bits, fn in ((32, "strtoi32"), (64, "strtoi64"), (32, "strtoi")):
+        ops = []
+        for b in range(2, 37):
+            for v in ((1 << (bits - 1)) - 1, 1 << (bits - 1), (1 << (bits - 1)) + 1):
+                ds = ""
+                while v: ds, v = MEM_DIG[v % b] + ds, v // b
+                ops += ["%s hex=%s base=%d" % (fn, hx(ds.encode()), b), "%s hex=%s base=%d" % (fn, hx(b"-" + ds.upper().encode()), b)]
+        out.append(mem_case("mem-%s-limits" % fn, ops))
+    lines = [b"", b" ", b"a", b"  a", b"a  ", b" ab  cd ", b"ab", b"\x00a\x00", b" \xffa", b"a,b", b",,", b"a\x00b"]
+    dl = [b" ", b"", b" ,", b"\xff", b" \x00,", b"a"]
+    out.append(mem_case("mem-tok", ["%s hex=%s %s=%s" % (f, hx(l), "delim" if f == "memtok" else "set", hx(d)) for l in lines for d in dl for f in ("memtok", "memspn", "memcspn")]))
+    out.append(mem_case("mem-newline", ["memnewline hex=" + hx(l) for l in (b"", b"\n", b"\r", b"\r\n", b"a", b"a\n", b"a\r\n", b"a\rb\n", b"\n\r\n", b"ab\r\r\nc", b"a\r")]))
+    ss = [b"", b"a", b"ab", b"AB", b"aB", b"ba", b"a\x00b", b"\x00", b"\xe1", b"\xc1", b"@", b"`"]
+    out.append(mem_case("mem-str", ["%s hex=%s s=%s" % (f, ("null" if l is None else hx(l)), ("null" if t is None else hx(t)))
+                                   for f in ("memstrcmp", "memstrpfx", "memstrcontains", "memstrcmp_case", "memstrpfx_case")
+                                   for l in ss + [None, b"xab", b"aab", b"abab"] for t in ss + [None]]))
+    out.append(mem_case("mem-dup", ["memstrdup hex=null", "memstrdup hex=-", "memstrcpy hex=-", "memstrdup hex=6100ff", "memstrcpy hex=6100ff"] +
+                        ["memisreal hex=" + ("null" if l is None else hx(l)) for l in (None, b"", b" ", b"1", b" -1.5e3 ", b"1x", b"1e-5", b"e", b".", b"1.2.3", b"1e2e3", b"1e.5", b"1 2", b"+", b"x1", b"\xff1")]))
+    return out
+
+
+def mem_cases(rng, quick):
+    ncases = 44 if quick else 600
+    return [mem_case("mem%d" % i, [mem_gen_op(rng) for _ in range(50)]) for i in range(ncases)]
+
+
+def mem_monitor(case, out):
+    """the implementation's answers against the python oracle of the specification"""
+    for i, (op, l) in enumerate(zip(case["ops"], out)):
+        if l.startswith(("fault", "atexit")): return None       # reported by the engine as a fault
+        want = mem_spec(op)
+        if want is not None and l.strip() != want:
+            return Failure("monitor", "op %d %r answered %r, the specification says %r" % (i, op[:120], l[:80], want[:80]))
+    return None
+
+
+def mem_stats(cases):
+    """input distribution of the mem ops of a run (for the evidence file)"""
+    ops, bases, maxlen = {}, {}, 0
+    for c in cases:
+        if not c.get("mem"): continue
+        for o in c["ops"]:
+            w = o.split(); ops[w[0]] = ops.get(w[0], 0) + 1
+            for x in w[1:]:
+                if x.startswith("base="): bases[x[5:]] = bases.get(x[5:], 0) + 1
+                if x.startswith("hex=") and x != "hex=null" and x != "hex=-": maxlen = max(maxlen, len(x[4:]) // 2)
+    return {"cases": sum(1 for c in cases if c.get("mem")), "ops": ops, "bases": bases, "max_line_bytes": maxlen}
+
+
+def mem_nontrivial(out):
+    return sum(1 for l in out if l.startswith(("ok nc=", "ok tok=", "erange", "r=1"))) >= 1
+# END round4-mem
+
+
 class C05(Prop):
     id = "C05"
     lean_modules = ["EaselModel.Props.C05"]
@@ -153,6 +397,7 @@ class C05(Prop):
         "step_total", "history_total", "history_total_no_fault", "history_total_no_set", "error_only_outside_contract", "contract_implies_callerOk", "callerOk_decidable", "spec_bracket", "history_memory_exact", "history_memory_mode_independent",
         "unsafe_set_beyond_window", "fixed_setoffset_beyond_end_in_memory", "fixed_anchor_ahead_of_cursor", "fixed_rewind_before_anchor",
         "stable_ptr_valid_iff", "plain_anchor_no_promise")]
+    theorems = theorems + MEM_THEOREMS   # round4-mem
     claimed = True
     level_text = ("Theorems (no bound on input, page size >= 1, or history length): every opener yields a well-formed window; buffer_refill preserves it and restores the page guarantee; "
                   "GetLine/FetchLine/FetchLineAsStr, GetToken/FetchToken/FetchTokenAsStr, Read each refine the abstract 'bytes + cursor' specification; "
@@ -184,6 +429,7 @@ class C05(Prop):
                    "every other call of the 14 operations is total in the model exactly as in the code (compared exactly on contract-violating histories): SetAnchor/SetStableAnchor outside the window and SetOffset beyond the end or to an unloaded unprotected offset answer eslEINVAL; anchors ahead of the cursor and rewinds before the anchor are handled (b86a62d)",
                    "history_spec / history_mode_independent keep the API contract Valid as hypothesis: outside it results legitimately depend on what is loaded (page size, mode); history_total (no contract) describes them by the relation Total",
                    "esl_buffer_Open (environment search, .gz detection) and esl_buffer_Close are not modelled; mmap/popen/gzip are OS behaviour, modelled as 'delivers the bytes'"]
+    level_text = level_text + " " + MEM_LEVEL_TEXT; assumptions = assumptions + MEM_ASSUMPTIONS; trusted_base = trusted_base + MEM_TRUSTED   # round4-mem
     rule = ("case = one opening (mode, page size, input bytes) + a history of <= 200 operations valid under the API contract, generated by simulating the abstract specification; "
             "the same (input, history) is run under 3 configurations; non-trivial = at least one operation returned bytes; distinct by implementation output trace")
 
@@ -333,6 +579,8 @@ class C05(Prop):
         for kind in ("file", "open", "pipe", "cmd"):
             out.append(dict(self.mk("openfail-" + kind, b"abc\n", "allfile", 4, ["openfail kind=" + kind, "getline"]), nomonitor=True))
         out.append(dict(self.mk("known-stable-realloc", b"abcd", "stream", 2, ["setstable o=0", "getline"]), known_key=K_STABLE))
+        # genuine (benign) defect: Read of 0 bytes on an empty slurped file = memcpy(p, NULL, 0) (UBSan); the generators avoid it (read k=0 on an empty input)
+        out.append(dict(self.mk("known-read0-null-mem", b"", "allfile", 4, ["read k=0", "getoffset"]), known_key=K_READ0, nomonitor=True))
         # ---- outside the API contract: one scripted history per outcome of `Total` (exact model = implementation) ...
         W = b"ab\ncd\nef\ngh\n"
         for m in ("stream", "pipe", "file"):
@@ -356,6 +604,7 @@ class C05(Prop):
                 out.append(self.mk("reg-anchor-ahead-of-cursor.%s.%d" % (m, ps), W, m, ps, ["setanchor o=%d" % min(ps, 2), "read k=1", "get", "getline", "getline", "raise o=%d" % min(ps, 2), "getline"], nomonitor=True))
                 out.append(self.mk("reg-stable-anchor-ahead-of-cursor.%s.%d" % (m, ps), W, m, ps, ["setstable o=%d" % min(ps, 2), "get", "read k=5", "getline", "raise o=%d" % min(ps, 2), "getline"], nomonitor=True))
                 out.append(self.mk("reg-rewind-before-anchor.%s.%d" % (m, ps), W, m, ps, ["setanchor o=0", "read k=3", "raise o=0", "setanchor o=3", "setoffset o=2", "read k=6", "getoffset", "raise o=3", "getline"], nomonitor=True))
+        out += mem_corpus()   # round4-mem
         return out
 
     def gen_wild(self, rng, src, nops, raw=False):
@@ -427,6 +676,7 @@ class C05(Prop):
                     out.append(self.mk("wild%d.%s.%d" % (i, m, ps), wsrc, m, ps, wops, nomonitor=True, wild=True))
                     self.stats["wild_cases"] += 1
                     for o in wops: self.stats["ops"][o.split()[0]] = self.stats["ops"].get(o.split()[0], 0) + 1
+        out += mem_cases(rng, quick); self.stats["mem"] = mem_stats(out)   # round4-mem
         return out
 
     def extra_evidence(self, ctx):
@@ -443,12 +693,12 @@ class C05(Prop):
         what the python oracle `Spec` prescribes, and every generated op is inside the Lean contract `Valid ps`"""
         ops = case["ops"]
         n = max(len(impl_out), len(model_out))
-        src0 = case_cfg(ops[0])[0]
+        src0 = b"" if case.get("mem") else case_cfg(ops[0])[0]   # round4-mem
         for i in range(n):
             a = self.canonical(impl_out[i]) if i < len(impl_out) else "<missing>"
             b = self.canonical(model_out[i]) if i < len(model_out) else "<missing>"
-            if a != b and 0 < i < len(ops) and ops[i] == "get" and a.split()[:1] == b.split()[:1] and a.split()[-1:] == b.split()[-1:]:
-                continue      # how much Get exposes is window policy, not the property (the monitor checks prefix + page guarantee)
+            if a != b and 0 < i < len(ops) and ops[i] == "get" and a.split()[:1] == b.split()[:1] and a.split()[-1:] == b.split()[-1:] and case.get("ps", 0) == 0:
+                continue      # without a page-size override how much Get exposes depends on st_blksize (the monitor checks prefix + page guarantee); with the override the window is compared exactly
             if a != b: return (i, a, b)
         if case.get("nomonitor"): return None
         sp = Spec(src0)
@@ -462,11 +712,13 @@ class C05(Prop):
         return None
 
     def nontrivial(self, case, out):
+        if case.get("mem"): return mem_nontrivial(out)   # round4-mem
         return len(out) >= 3 and sum(1 for l in out if l.startswith("ok") and " n=0 " not in l) >= 1
 
     WILD_ST = ("ok", "eof", "eol", "einval", "unsafe")
 
     def monitor(self, ctx, case, out):
+        if case.get("mem"): return mem_monitor(case, out)   # round4-mem
         if case.get("wild"):
             # outside the contract: only the documented statuses (eslEINVAL for a refused SetOffset/SetAnchor), never an internal error
             for i, (op, l) in enumerate(zip(case["ops"][1:], out[1:]), 1):
